@@ -157,6 +157,9 @@ impl HasConnectionInfo for Sio {
 impl tokio::io::AsyncRead for Sio {
     fn poll_read(self: Pin<&mut Self>, _cx: &mut Context<'_>, buf: &mut tokio::io::ReadBuf<'_>) -> Poll<io::Result<()>> {
         let cap = buf.remaining();
+        // like a zeroing reader, this one initialises the whole spare capacity and then fills only part of
+        // it: whoever wraps it must go by `filled`, not by `initialized`
+        buf.initialize_unfilled();
         self.0.lock().unwrap().do_read(cap, |b| buf.put_slice(b))
     }
 }
